@@ -417,7 +417,17 @@ fn run_leaf(setup: &[Setup], actors: &[Vec<Op>], choose: &mut dyn FnMut(usize, u
     // decision points: the cont.* / start / sess.before_emit points, and - only when a continuity append
     // arrives at the log writer WITHOUT the seq mutex it took (a critical section that ends before the log
     // append: never the case on the code as built) - the point right before EventLog::append
-    let is_coarse = move |a: usize, p: &str| -> bool { coarse(p) || (p == "log.before_lock" && holding3.lock().unwrap().get(a).cloned().unwrap_or(false) && store_p.verif_seq_free()) };
+    // ... and NOT the return from an actor's last call: nothing another actor can observe happens after it,
+    // so it is granted at once instead of doubling the schedule tree at every later decision
+    let n_ops: Vec<usize> = actors.iter().map(|o| o.len()).collect();
+    let ops_done: Arc<std::sync::Mutex<Vec<usize>>> = Arc::new(std::sync::Mutex::new(vec![0; actors.len()]));
+    let ops_done2 = ops_done.clone();
+    let is_coarse = move |a: usize, p: &str| -> bool {
+        if p == "cont.h_opdone" {
+            return ops_done2.lock().unwrap().get(a).map(|d| d + 1 < n_ops[a]).unwrap_or(true);
+        }
+        coarse(p) || (p == "log.before_lock" && holding3.lock().unwrap().get(a).cloned().unwrap_or(false) && store_p.verif_seq_free())
+    };
     let trace = sched.run(
         |en| {
             {
@@ -428,15 +438,22 @@ fn run_leaf(setup: &[Setup], actors: &[Vec<Op>], choose: &mut dyn FnMut(usize, u
                     }
                 }
             }
+            let granted = |a: usize, p: &str| {
+                if p == "cont.h_opdone" {
+                    ops_done.lock().unwrap()[a] += 1;
+                }
+            };
             if let Some(s) = sticky {
                 if let Some((a, p)) = en.iter().find(|(a, _)| *a == s) {
                     if !is_coarse(*a, p) {
+                        granted(*a, p);
                         return Some(*a);
                     }
                 }
             }
-            if let Some((a, _)) = en.iter().find(|(a, p)| !is_coarse(*a, p)) {
+            if let Some((a, p)) = en.iter().find(|(a, p)| !is_coarse(*a, p)) {
                 sticky = Some(*a);
+                granted(*a, p);
                 return Some(*a);
             }
             let i = if en.len() > 1 {
@@ -451,6 +468,7 @@ fn run_leaf(setup: &[Setup], actors: &[Vec<Op>], choose: &mut dyn FnMut(usize, u
             if en[i].1 == "cont.before_lock" {
                 holding.lock().unwrap()[en[i].0] = true;
             }
+            granted(en[i].0, en[i].1);
             Some(en[i].0)
         },
         &enabled,
@@ -1464,6 +1482,19 @@ fn exhaustive(ctx: &mut Ctx, case: &Case, cap: usize, kind: &str) {
             Some(q) if n < cap => prefix = q,
             Some(_) => {
                 ctx.res.bump("exhaustive_capped");
+                // depth-first enumeration varies the LAST decisions first: a capped group has only seen schedules
+                // that differ near the end, so a third as many sampled schedules are added (uniform choice at
+                // every decision, seeded by the group's position)
+                if !is_task {
+                    let mut rr = Rng::new(0x5a17 ^ (ctx.leaves << 8) ^ cap as u64);
+                    for _ in 0..(cap / 3).max(4) {
+                        if ctx.stop() {
+                            break;
+                        }
+                        let leaf = run_leaf(&case.setup, &case.actors, &mut |_i, w| rr.below(w as u64) as usize);
+                        ctx.record(case, &leaf, &format!("{kind}_sampled"));
+                    }
+                }
                 break;
             }
             None => {
